@@ -86,6 +86,14 @@ def prepare(cases, root):
         if c["fam"] == "shape":
             text = materialise(c["f"], src, True, files)
             flat = flat_text(c["flat"])
+            if c.get("enc", "utf8") != "utf8":
+                codec, bom = {"utf8bom": ("utf-8", b"\xef\xbb\xbf"), "utf16le_bom": ("utf-16-le", b"\xff\xfe"), "utf16be_bom": ("utf-16-be", b"\xfe\xff"),
+                              "utf32le_bom": ("utf-32-le", b"\xff\xfe\x00\x00"), "utf16le": ("utf-16-le", b"")}[c["enc"]]
+                for fp in files:
+                    with open(fp) as fh:
+                        body = fh.read()
+                    with open(fp, "wb") as fh:
+                        fh.write(bom + body.lstrip().encode(codec))
         elif c["fam"] == "a2ml":
             f = {"place": c["place"], "name": "spec.aml", "sep": c["sep"], "quoted": c["quoted"]}
             cdir = os.path.join(src, *relpath(f)[:-1])
